@@ -741,6 +741,24 @@ Proof.
   - split; [apply good_set_queue, HG1|split; reflexivity].
 Qed.
 
+(* the abstract header check never reports a source error (it has no source) *)
+Lemma p_header_no_io c st st' code : p_header c st = (st', Err (RIo code)) -> False.
+Proof.
+  rewrite p_header_unfold. unfold p_tag_id.
+  destruct (b_bytes st) as [|b0 tl] eqn:Eb; [intros H; inversion H|].
+  assert (Hx : forall id idl, p_hdr_tail c st id idl = (st', Err (RIo code)) -> False).
+  { intros id idl. unfold p_hdr_tail. destruct (read_vint _) as [[[size sl]|]|e1|]; try (intros H; inversion H; fail).
+    destruct (is_numeric _ && _); [intros H; inversion H|]. destruct (negb (c_allow_id c) && _); [intros H; inversion H|].
+    destruct (p_hier_step c st id (get_type (c_sp c) id)) as [st1 [e1|]] eqn:Eh.
+    - intros H. inversion H; subst. unfold p_hier_step in Eh. destruct (negb (c_allow_hier c) && _); [|inversion Eh].
+      destruct (b_det st).
+      + destruct (_ && _); inversion Eh.
+      + destruct (all_ids _); [destruct (implied_stack _ _); [destruct (_ && _)|]|destruct (_ && _)]; inversion Eh.
+    - destruct (b_bad st1); [intros H; inversion H|]. destruct (negb (c_allow_over c) && _); [intros H; inversion H|].
+      destruct (c_max c); destruct (ebml_size size sl); try destruct (_ <? _); intros H; inversion H. }
+  destruct (b0 =? 0); [apply Hx|]. destruct (_ <? _); [intros H; inversion H|apply Hx].
+Qed.
+
 Lemma recover_loop_refines c : forall fuel st, Good st ->
   Good (fst (recover_loop fuel c st)) /\ Abs (fst (recover_loop fuel c st)) = fst (p_recover_loop fuel c (Abs st)) /\
   snd (recover_loop fuel c st) = snd (p_recover_loop fuel c (Abs st)).
@@ -763,11 +781,11 @@ Proof.
       set (st2 := consume st1 1) in *.
       destruct (peek_header_refines c st2 HG2) as [HG3 [HA3 [Hr3 _]]].
       rewrite HA2 in HA3, Hr3.
-      destruct (peek_header c st2) as [st3 r3]. destruct (p_header c (pconsume (Abs st) 1)) as [pst3 pr3].
-      cbn [fst snd] in *. subst pst3 pr3.
+      destruct (peek_header c st2) as [st3 r3].
+      destruct (p_header c (pconsume (Abs st) 1)) as [pst3 pr3] eqn:Eph. cbn [fst snd] in *. subst pst3 pr3.
       destruct r3 as [h|e|].
       * split; [exact HG3|split; reflexivity].
-      * apply IH, HG3.
+      * destruct e; try (apply IH, HG3). exfalso. eapply p_header_no_io, Eph.
       * split; [apply good_set_bad, HG3|split; reflexivity].
 Qed.
 
